@@ -533,7 +533,17 @@ add_frame(Ctx& x, unsigned tsel, uint16_t shape_sel, uint16_t ids_sel)
     static const SampleType types[8] = { SampleType_u8, SampleType_u16, SampleType_i8, SampleType_i16, SampleType_f32, SampleType_u10, SampleType_u12, SampleType_u14 };
     SampleType ty = types[tsel % 8];
     uint32_t w = 1 + (shape_sel & 0xff) % 33, h = 1 + (shape_sel >> 8) % 17;
-    if ((shape_sel & 0xff) >= 250) {
+    if ((shape_sel & 0xff) == 249) {
+        // one side of 65536 pixels or more (still a small image)
+        static const uint32_t big[4] = { 65536, 70000, 65537, 131072 };
+        if ((shape_sel >> 8) & 1) {
+            w = big[(shape_sel >> 9) & 3];
+            h = 1 + (shape_sel >> 11) % 2;
+        } else {
+            h = big[(shape_sel >> 9) & 3];
+            w = 1 + (shape_sel >> 11) % 3;
+        }
+    } else if ((shape_sel & 0xff) >= 250) {
         w = 100 + shape_sel % 157;
         h = 50 + (shape_sel >> 8) % 77;
     }
